@@ -74,9 +74,10 @@ var variants = []string{
 	"st-absent", "st-notbefore-utc", "st-notafter-utc", "st-inside-gen", "st-notbefore-gen", "st-notafter-gen",
 	"csca-notafter-eq-st", "csca-notbefore-eq-st",
 	"sid-rdn-order", "sid-string-type", "sid-rdn-order-string-type",
+	"csca-name-two-ous", "sid-rdn-order-two-ous",
 	"extra-cert", "extra-cert-csca", "extra-cert-before-ds", "extra-cert-same-issuer-other-serial",
 	"anchors-same-ski-wrong-key-first", "anchors-link-cert-first",
-	"cardsec", "ml-pool",
+	"cardsec", "ml-pool", "cardsec-other-ds-earlier-window", "cardsec-other-ds-earlier-window-no-st",
 	"digest-null-params", "si-rsaencryption-oid",
 	"pss-salt-20", "pss-salt-20-der-omitted", "pss-der-defaults-omitted",
 	"csca-explicit-params",
@@ -88,11 +89,14 @@ var groups = map[string][]string{
 	"enc-indef-outer": {"enc"}, "enc-indef-all": {"enc"}, "enc-indef-deep": {"enc"},
 	"lds-v1":    {"lds"},
 	"st-absent": {"st"}, "st-notbefore-utc": {"st"}, "st-notafter-utc": {"st"}, "st-inside-gen": {"st"}, "st-notbefore-gen": {"st"}, "st-notafter-gen": {"st"},
-	"csca-notafter-eq-st": {"st", "anchors"}, "csca-notbefore-eq-st": {"st", "anchors"},
+	"csca-notafter-eq-st": {"st", "anchors", "cscawin"}, "csca-notbefore-eq-st": {"st", "anchors", "cscawin"},
 	"sid-rdn-order": {"sid"}, "sid-string-type": {"sid"}, "sid-rdn-order-string-type": {"sid"},
 	"extra-cert": {"extra"}, "extra-cert-csca": {"extra"}, "extra-cert-before-ds": {"extra"}, "extra-cert-same-issuer-other-serial": {"extra"},
 	"anchors-same-ski-wrong-key-first": {"anchors"}, "anchors-link-cert-first": {"anchors"},
 	"cardsec": {"container"}, "ml-pool": {"container", "anchors"},
+	// (signed in 2018: needs the anchor's ordinary validity, hence exclusive with the re-issued anchors)
+	"cardsec-other-ds-earlier-window": {"container", "cscawin"}, "cardsec-other-ds-earlier-window-no-st": {"container", "cscawin"},
+	"csca-name-two-ous": {"name"}, "sid-rdn-order-two-ous": {"sid", "name"},
 	"digest-null-params": {"digest"}, "si-rsaencryption-oid": {"sigalg"},
 	"pss-salt-20": {"pss"}, "pss-salt-20-der-omitted": {"pss"}, "pss-der-defaults-omitted": {"pss"},
 	"csca-explicit-params": {"cscaparams"},
@@ -125,7 +129,7 @@ func pairs() []string {
 
 func applicable1(k kase, v string) bool {
 	switch v {
-	case "sid-rdn-order", "sid-string-type", "sid-rdn-order-string-type":
+	case "sid-rdn-order", "sid-string-type", "sid-rdn-order-string-type", "sid-rdn-order-two-ous":
 		return k.SID == "ias"
 	case "si-rsaencryption-oid":
 		return strings.HasPrefix(k.DS, "rsa") && !strings.HasSuffix(k.DS, "pss")
@@ -199,6 +203,8 @@ func build(k kase) (*built, error) {
 			p.PSSSaltLen, p.PSSOmitDefaults = 20, true
 		case "csca-explicit-params":
 			p.CSCA.Explicit = true
+		case "csca-name-two-ous", "sid-rdn-order-two-ous":
+			p.CSCATwoOUs = true
 		}
 	}
 	is := refpki.NewIssuer(p)
@@ -247,7 +253,8 @@ func applyVariant(v string, is *refpki.Issuer, cs refpki.KeySpec, op *refpki.SOD
 		o.SigningTime, o.SigningTimeGeneralized = refpki.DSNotBefore, true
 	case "st-notafter-gen":
 		o.SigningTime, o.SigningTimeGeneralized = refpki.DSNotAfter, true
-	case "sid-rdn-order":
+	case "sid-rdn-order", "sid-rdn-order-two-ous":
+		// (two OUs: the reversal also swaps the two attributes of the repeated type relative to each other)
 		o.SIDIssuer = is.CSCAName.Reversed()
 	case "sid-string-type":
 		o.SIDIssuer = is.CSCAName.WithStringTag(0x13) // certificate uses UTF8String
@@ -306,6 +313,20 @@ func applyVariant(v string, is *refpki.Issuer, cs refpki.KeySpec, op *refpki.SOD
 		b.wantCA = link.DER
 	case "cardsec":
 		b.cardSec, _ = is.IssueCardSecurity(refpki.SecurityInfos(refpki.LoadKey(refpki.EC("brainpoolP256r1", false, 20)), false))
+	case "cardsec-other-ds-earlier-window", "cardsec-other-ds-earlier-window-no-st":
+		// EF.CardSecurity signed years before the SOD by ANOTHER document signer whose validity ended before the
+		// SOD's signing time: each SignedData is judged at its own signing time
+		k2 := refpki.LoadKey(refpki.EC("P-256", false, 8))
+		ds2 := is.IssueDS(refpki.CertSpec{Serial: big.NewInt(0x1003), Subject: refpki.NewName("NL", "Reference State", "Document Signer", "DS 2016"), Key: k2,
+			NotBefore: time.Date(2016, 1, 1, 0, 0, 0, 0, time.UTC), NotAfter: time.Date(2019, 1, 1, 0, 0, 0, 0, time.UTC)})
+		t := time.Date(2018, 6, 15, 12, 0, 0, 0, time.UTC)
+		sd := &refpki.SignedData{EContentType: refpki.OIDCardSecurityObj, EContent: refpki.SecurityInfos(refpki.LoadKey(refpki.EC("brainpoolP256r1", false, 20)), false),
+			DigestAlg: is.Profile.Hash, Certs: []*refpki.Cert{ds2}, SigningTime: &t}
+		if v == "cardsec-other-ds-earlier-window-no-st" {
+			sd.SigningTime = nil
+		}
+		sd.Sign(k2, refpki.SignOpts{Hash: is.Profile.Hash})
+		b.cardSec, _ = sd.Encode(refpki.EncDER, 0)
 	case "ml-pool":
 		un := refpki.NewIssuer(refpki.Profile{Country: "SE", State: "SWE", CSCA: refpki.EC("P-256", false, 30), DS: refpki.EC("P-256", false, 31), Hash: refpki.SHA256})
 		b.mlPool, _ = is.IssueMasterList([]*refpki.Cert{is.CSCACert, un.CSCACert})
